@@ -556,6 +556,8 @@ def search_pass(kind, m, py_answer, rng):
                     a, b = L.flat(w.ev(e)), L.flat(w.ev(e2))
                 except (ZeroDivisionError, L.Unsupported):
                     continue
+                if a != b and inexact(L.ser(e2)) and approx_equal([a], [b]):
+                    continue        # a float division inside fold_constants rounded; equal up to that rounding
                 if a != b:
                     return {'pass': kind, 'before': L.ser(e)[:1500], 'after': L.ser(e2)[:1500], 'value_before': [str(x) for x in a],
                             'value_after': [str(x) for x in b], 'env_seed': t}
